@@ -261,7 +261,7 @@ C05_Violations(r) ==
       unit == IF r.cfg.tabs THEN 1 ELSE r.cfg.tw
       M == r.marks
       ordOfKey(k) == (CHOOSE j \in 1..Len(M) : M[j][2] = k)
-      applies(m) == m[1] \in {"S", "D", "C"} \/ (m[1] = "B" /\ r.cfg.always_wrap) \/ (m[1] = "T" /\ m[3] = 0)
+      applies(m) == m[1] \in {"S", "D", "C", "U", "E"} \/ (m[1] = "B" /\ r.cfg.always_wrap) \/ (m[1] = "T" /\ m[3] = 0)
       \* an enclosing anonymous routine that stayed on its parent's line (deliberate style): walk up the refs
       inlineAnon[key \in 0..Len(M) + 1] ==
          IF key = 0 \/ ~(\E j \in 1..Len(M) : M[j][2] = key) THEN FALSE
